@@ -1,3 +1,6 @@
 import QsProofs.Inst
 import QsProofs.Lemmas.Position
 import QsProofs.Props.C03
+import QsProofs.Lemmas.Holdings
+import QsProofs.Lemmas.HoldingsBroker
+import QsProofs.Props.C02
